@@ -243,16 +243,20 @@ fn flood_round() -> Result<(u64, Option<String>), String> {
     e.send("go depth 100");
     let mut sent = 0usize;
     let began = std::time::Instant::now();
-    while e.count_lines("bestmove") == 0 && began.elapsed() < Duration::from_secs(20) {
-        for _ in 0..20 {
-            e.send("isready");
-            sent += 1;
+    while e.count_lines("bestmove") == 0 && began.elapsed() < Duration::from_secs(30) {
+        // a bounded flood (at most 3000 lines): enough to overlap with the ~100 iteration reports,
+        // small enough to be answered in time on a loaded machine
+        if sent < 3000 {
+            for _ in 0..20 {
+                e.send("isready");
+                sent += 1;
+            }
         }
         e.settle(Duration::from_micros(300));
     }
-    // all answers owed
+    // all answers owed (generous: nothing here is about speed)
     let t = std::time::Instant::now();
-    while e.count_lines("readyok") < sent && t.elapsed() < Duration::from_secs(5) {
+    while e.count_lines("readyok") < sent && t.elapsed() < Duration::from_secs(30) {
         e.settle(Duration::from_millis(2));
     }
     let lines = e.lines();
